@@ -307,6 +307,13 @@ func ParseRaceLogs(prefix string) (blocks []RaceBlock, total int) {
 
 const repoMod = "github.com/glyphlang/glyph/"
 
+// harnessFrame: functions injected into repository packages by the overlays are named
+// verifX / TestVerifX / runVerifX / SetVerifX (repository functions such as verifyToken are
+// not matched: the character after "erif" must be upper case).
+var harnessFrameRe = regexp.MustCompile(`(^|[./(*])(Test|run|Set)?[Vv]erif([A-Z]|$|[.)])`)
+
+func harnessFrame(fn string) bool { return harnessFrameRe.MatchString(fn) }
+
 func analyseRace(p string) *RaceBlock {
 	// Split into stack sections: the two access stacks come first.
 	lines := strings.Split(p, "\n")
@@ -333,7 +340,7 @@ func analyseRace(p string) *RaceBlock {
 			continue
 		}
 		if inAccess && t != "" && !strings.HasPrefix(t, "/") && strings.Contains(t, "(") {
-			fn := t[:strings.Index(t, "(")]
+			fn := t[:strings.LastIndex(t, "(")] // the argument list is the last parenthesis: pkg.(*T).method(0x...)
 			// strip receivers' generic noise but keep package path
 			cur = append(cur, fn)
 		}
@@ -349,7 +356,7 @@ func analyseRace(p string) *RaceBlock {
 	for i := 0; i < 2; i++ {
 		var repoFrames []string
 		for _, fn := range stacks[i] {
-			if strings.HasPrefix(fn, repoMod) && !strings.Contains(fn, "verif") {
+			if strings.HasPrefix(fn, repoMod) && !harnessFrame(fn) {
 				repoFrames = append(repoFrames, strings.TrimPrefix(fn, repoMod))
 			}
 		}
